@@ -32,7 +32,7 @@ Plans ==
                    P({"a", ".."}, 2, Rel, "core", 3, 1) >>
     ELSE Det \o << P(All5, 4, Both, "all", 1, 1),
                    P(All5, 2, Both, "all", 2, 1),
-                   P(All5, 3, Both, "core", 2, 4),
+                   P(All5, 3, Both, "core", 2, 8),
                    P({"a", "b", "..", ""}, 2, Rel, "core", 3, 1),
                    P({"a", ".."}, 2, Rel, "all", 3, 1),
                    P({"a", "b"}, 3, Rel, "plain", 3, 1) >>
